@@ -41,6 +41,10 @@ True
 Traceback (most recent call last):
     ...
 InvalidChecksum: ...
+>>> validate('RF0072')  # check digits are between 02 and 98
+Traceback (most recent call last):
+    ...
+InvalidChecksum: ...
 >>> format('RF18539007547034')
 'RF18 5390 0754 7034'
 """
@@ -64,6 +68,8 @@ def validate(number):
         raise InvalidLength()
     if not number.startswith('RF') or not isdigits(number[2:4]):
         raise InvalidFormat()
+    if number[2:4] in ('00', '01', '99'):
+        raise InvalidChecksum()
     mod_97_10.validate(number[4:] + number[:4])
     return number
 
